@@ -511,14 +511,18 @@ def tick_rule(run, f, rid):
             sp = {x for (x, t) in find_calls(b, callee_is(shared_pop))}
             lp = {x for (x, t) in find_calls(b, callee_is(*local_pops))} | {x for (x, t) in find_calls(b, callee_is("st3::fifo::Stealer::steal"))}
             w = PathWalker(b, max_paths=60000)
-            seen_true = 0
+            seen_true = n_inf = n_und = 0
             for (pth, _c, sv) in w.walk(0, lambda bid, t: ("return",) if t["k"] == "return" else None):
                 if sv[0] != "return":
                     continue
-                if outcome_on_path(b, du, pth, mb) is not True:
+                mv = outcome_on_path(b, du, pth, mb)
+                if mv is None and mb in pth:
+                    n_und += 1          # the periodic test lies on the path but the helper cannot tell how it went
+                if mv is not True:
                     continue
                 oc, feasible = result_outcomes(b, du, pth)
                 if not feasible:
+                    n_inf += 1
                     continue
                 seen_true += 1
                 pops = [x for x in pth if x in sp or x in lp]
@@ -526,6 +530,9 @@ def tick_rule(run, f, rid):
                     why.append("on the periodic branch the local queue can be popped (or the function can return) before the shared queue is consulted")
                 elif oc.get(pops[0]) == "ok" and len(pops) > 1:
                     why.append("an item obtained from the shared queue on the periodic branch is not returned at once")
+            run.paths(rid, fn + "/tick", b.loc(), seen_true, n_inf, n_und)
+            if n_und:
+                why.append("on %d path(s) through the periodic test its outcome could not be read off the path: those paths were not judged" % n_und)
             if not seen_true:
                 why.append("result of is_multiple_of is not branched on")
             why = sorted(set(why))
@@ -583,12 +590,13 @@ def fallback_rule(run, f, rid):
         if not lock_take or not lock_rel:
             why.append("the steal lock (stealing flag) is not taken and released with atomic operations")
         w = PathWalker(b, max_paths=80000)
-        npaths = 0
+        npaths = n_inf = 0
         for (pth, _c, sv) in w.walk(0, lambda bid, t: ("return",) if t["k"] == "return" else None):
             if sv[0] != "return" or why:
                 continue
             oc, feasible = result_outcomes(b, du, pth)
             if not feasible:
+                n_inf += 1
                 continue
             npaths += 1
             pops = [x for x in pth if x in lp or x in sp]
@@ -607,7 +615,8 @@ def fallback_rule(run, f, rid):
             took = [i for i, x in enumerate(pth) if x in lock_take and oc.get(x) == "ok"]
             if took and not any(i > took[-1] for i, x in enumerate(pth) if x in lock_rel):
                 why.append("the steal lock is not released on every path (later pops would never steal again)")
-        run.count("paths_or_states", npaths)
+        if not why:
+            run.paths(rid, fn + "/fallback", b.loc(), npaths, n_inf)
         why = sorted(set(why))
         if why:
             run.fail(rid, fn + "/fallback", b.loc(), "; ".join(why))
